@@ -106,6 +106,25 @@ FIXED = {
     "C17/element_at/value/typed-index": ("d51b33c", "element_at(a, col.cast('int')) read one position too high on DuckDB", "element_at-value", "typed-index"),
     "C17/percentile/value": ("fefb690", "percentile returned an element of the column (PERCENTILE_DISC) instead of interpolating", "percentile-value", None),
     "C17/skewness/value": ("87eb31d", "skewness of a single value returned NaN instead of NULL on DuckDB", "skewness-value", None),
+    "C17/concat/null-input": ("1fad93b", "concat with a NULL argument returned '' / [] instead of NULL on DuckDB (CONCAT skips NULLs)", "concat-null-input", None),
+    "C17/overlay/null-input": ("07cdf49", "overlay of NULL strings returned '' instead of NULL (parts glued with CONCAT)", "overlay-null-input", None),
+    "C17/array_append/null-input": ("1911cdd", "array_append of a NULL array returned [x] instead of NULL on DuckDB", "array_append-null-input", None),
+    "C17/array_union/null-input": ("8fdffd8", "array_union with a NULL array returned [] instead of NULL on DuckDB", "array_union-null-input", None),
+    "C17/char/raises": ("28d1c8b", "char of a BIGINT column raised a binder error on DuckDB", "char-raises", None),
+    "C17/hour/raises/timestamp-string": ("0d593f4", "hour of a timestamp string raised a binder error on DuckDB", "hour-raises-timestamp-string", None),
+    "C17/minute/raises/timestamp-string": ("0d593f4", "minute of a timestamp string raised a binder error on DuckDB", "minute-raises-timestamp-string", None),
+    "C17/second/raises/timestamp-string": ("0d593f4", "second of a timestamp string raised a binder error on DuckDB", "second-raises-timestamp-string", None),
+    "C17/left/value/negative-len": ("09eb0f8", "left(s, -1) dropped the last character instead of returning '' on DuckDB", "left-value-negative-len", None),
+    "C17/right/value/negative-len": ("09eb0f8", "right(s, -1) dropped the first character instead of returning '' on DuckDB", "right-value-negative-len", None),
+    "C17/factorial/value/beyond-20": ("bc008ba", "factorial(21) returned a HUGEINT instead of NULL on DuckDB", "factorial-value-beyond-20", None),
+    "C17/get_json_object/value": ("82d5ffe", "get_json_object returned a JSON string with its quotes on DuckDB", "get_json_object-value", None),
+    "C17/slice/value/negative-start": ("af12d2d", "slice with a negative start before the first element was clamped instead of returning []", "slice-value-negative-start", None),
+    "C17/date_trunc/raises/unit-spelling": ("2472c33", "date_trunc('yyyy' / 'mm', ..) raised a conversion error on DuckDB", "date_trunc-raises-unit-spelling", None),
+    "C17/trunc/raises/unit-spelling": ("2472c33", "trunc(d, 'yyyy' / 'yy' / 'mm') raised a conversion error on DuckDB", "trunc-raises-unit-spelling", None),
+    "C17/regexp_replace/value/group-reference": ("8086d90", "regexp_replace copied the group reference $1 literally on DuckDB", "regexp_replace-value-group-reference", None),
+    "C17/spark-session/array_position": ("911fdaf", "array_position of a NULL array returned 0 on a Spark-backed session", "spark-session-array_position", None),
+    "C17/substring/value/pos-0": ("80fae59", "substring(s, 0, n) returned n-1 characters (position 0 is position 1 in Spark); repaired in column.py by the C05 work", "substring-value-pos-0", None),
+    "C17/substr/value/pos-0": ("c1c21b8", "substr(s, lit(0), n) returned n-1 characters on DuckDB (position 0 is position 1 in Spark)", "substr-value-pos-0", None),
     "C17/spark-session/levenshtein": ("0dba499", "levenshtein with a threshold returned -1 for NULL input on a Spark-backed session too", "spark-session-levenshtein", None),
     "C17/spark-session/overlay": ("dcac97a", "overlay read a str pos/len as a string literal on a Spark-backed session (NULL result)", "spark-session-overlay", None),
 }
